@@ -3,6 +3,7 @@ package checks
 import (
 	"errors"
 	"fmt"
+	"math"
 	"math/rand/v2"
 	"sort"
 	"strings"
@@ -64,7 +65,7 @@ func genBreakerCfg(r *rand.Rand) model.BreakerCfg {
 		k := uint(1 + r.IntN(int(n)))
 		c.SuccThreshold, c.SuccCapacity = k, n
 	}
-	c.Delay = vk.Pick(r, int64(0), 1, 50, 1000, 7777, 60e9)
+	c.Delay = vk.Pick(r, int64(0), 1, 50, 1000, 7777, 60e9, math.MaxInt64) // MaxInt64: 'stay open until closed by hand'
 	return c
 }
 
@@ -296,7 +297,7 @@ func runBreakerHistory(rep *vk.Report, idx int, prop string) {
 				kind string
 			}
 			cands := []adv{{0, ""}, {1, ""}, {int64(r.IntN(2000)), ""}}
-			if rem > 0 {
+			if rem > 0 && rem < 1e15 { // a 'forever' delay is never advanced to: the virtual clock must not overflow
 				cands = append(cands, adv{rem - 1, "delay-1"}, adv{rem, "delay"}, adv{rem + 1, "delay+1"}, adv{rem, "delay"})
 			}
 			if slice > 0 {
